@@ -11,6 +11,7 @@ an atom (no ``and``/``or``/``not`` at the top).
 from __future__ import annotations
 
 import ast
+import copy
 from typing import Dict, Iterable, List, Optional, Sequence, Set, Tuple
 
 from .program import AnalysisError, FuncInfo, dotted, src
@@ -183,6 +184,26 @@ class LoopCtx:
         self.breaks: List[Tuple[Node, str]] = []
 
 
+class InlineCtx:
+    """Body of an inlined helper: ``return`` jumps to the end of the block."""
+
+    def __init__(self, ret: Optional[str], callee: str, cond: bool = False):
+        self.ret = ret
+        self.callee = callee
+        self.cond = cond          # inlined in test position: `return E` branches on E
+        self.t_rets: List[Tuple[Node, str]] = []
+        self.f_rets: List[Tuple[Node, str]] = []
+        self.rets: List[Tuple[Node, str]] = []
+        self.breaks: List[Tuple[Node, str]] = []   # break out of a spliced for-body: leaves the whole block
+
+
+class SpliceCtx:
+    """Caller's statements placed at a ``yield`` of an inlined generator: ``return`` is the caller's again."""
+
+    def __init__(self, ictx: InlineCtx):
+        self.ictx = ictx
+
+
 class Frag:
     __slots__ = ("entry", "outs")
 
@@ -228,9 +249,14 @@ def may_raise_expr(e: ast.AST) -> bool:
 
 
 class CFG:
-    def __init__(self, fi: FuncInfo, hier: ExcHierarchy):
+    def __init__(self, fi: FuncInfo, hier: ExcHierarchy, inliner=None):
         self.fi = fi
         self.hier = hier
+        self.inliner = inliner
+        self._inline_stack: List[str] = []
+        self.inlined: List[str] = []          # qualified names of the helpers inlined into this graph
+        self.inlined_bodies: List[List[ast.stmt]] = []   # instantiated (renamed) bodies, for syntax-directed rules
+        self._used: Optional[Set[str]] = None
         self.nodes: List[Node] = []
         self._cur_handler: Optional[HandlerInfo] = None
         self.entry = self._new("entry")
@@ -252,6 +278,8 @@ class CFG:
         n = Node(len(self.nodes), kind, ast_node, label)
         n.ctx = tuple(ctxs)
         n.handler = self._cur_handler
+        if self._inline_stack:
+            n.extra["inlined_from"] = self._inline_stack[-1]
         self.nodes.append(n)
         return n
 
@@ -374,13 +402,51 @@ class CFG:
         if isinstance(e, ast.UnaryOp) and isinstance(e.op, ast.Not):
             en, t, f = self._cond(e.operand, ctxs)
             return en, f, t
+        ci = self._cond_inline(e, ctxs)
+        if ci is not None:
+            return ci
+        pre, e = self._hoist(e, ctxs)
         n = self._new("test", e, ctxs)
         if may_raise_expr(e):
             self._route(n, None, ctxs)
+        if pre is not None and pre.entry is not None:
+            self._connect(pre.outs, n)
+            return pre.entry, [(n, "t")], [(n, "f")]
         return n, [(n, "t")], [(n, "f")]
 
     # -- statements
     def _stmt(self, s: ast.stmt, ctxs) -> Frag:
+        from .inline import InlineBlock, SplicedBody
+        if isinstance(s, InlineBlock):
+            return self._inline_block(s, ctxs)
+        if isinstance(s, SplicedBody):
+            return self._spliced_body(s, ctxs)
+        if self.inliner is not None:
+            if isinstance(s, (ast.With, ast.AsyncWith, ast.For, ast.AsyncFor)):
+                fr = self._try_splice(s, ctxs)
+                if fr is not None:
+                    return fr
+            if isinstance(s, ast.Return) and s.value is not None:
+                fr = self._tail_inline(s, ctxs)
+                if fr is not None:
+                    return fr
+            if isinstance(s, (ast.Assign, ast.AugAssign, ast.AnnAssign, ast.Expr, ast.Return, ast.Raise, ast.Assert, ast.Delete)):
+                pre, s2 = self._hoist(s, ctxs)
+                if pre is not None:
+                    if isinstance(s2, ast.Expr) and isinstance(s2.value, ast.Name) and s2.value.id.startswith("__ret_"):
+                        return pre
+                    if isinstance(s2, ast.Expr) and isinstance(s2.value, ast.Constant):
+                        return pre
+                    return self._seq([pre, self._stmt_plain(s2, ctxs)])
+            if isinstance(s, (ast.For, ast.AsyncFor)):
+                pre, it = self._hoist(s.iter, ctxs)
+                if pre is not None:
+                    s2 = copy.copy(s)
+                    s2.iter = it
+                    return self._seq([pre, self._stmt_plain(s2, ctxs)])
+        return self._stmt_plain(s, ctxs)
+
+    def _stmt_plain(self, s: ast.stmt, ctxs) -> Frag:
         if isinstance(s, (ast.Assign, ast.AugAssign, ast.AnnAssign, ast.Expr, ast.Delete, ast.Pass,
                           ast.Import, ast.ImportFrom, ast.Global, ast.Nonlocal)):
             n = self._new("stmt", s, ctxs)
@@ -398,6 +464,38 @@ class CFG:
                 self._route(n, None, ctxs)
             return Frag(n, [(n, "n")])
         if isinstance(s, ast.Return):
+            idx = self._inline_index(ctxs)
+            if idx is not None and ctxs[idx].cond:
+                ictx = ctxs[idx]
+                v = s.value
+                if v is None or isinstance(v, ast.Constant):
+                    n = self._new("stmt", ast.Pass(lineno=s.lineno, col_offset=0), ctxs)
+                    n.extra["inline_return"] = ictx.callee
+                    n.extra["returns_const"] = bool(v.value) if v is not None else False
+                    (ictx.t_rets if (v is not None and v.value) else ictx.f_rets).extend(self._unwind(n, ctxs, idx + 1))
+                    return Frag(n, [])
+                en, t, f = self._cond(v, ctxs)
+                for tn, tl in t:
+                    ictx.t_rets.extend(self._unwind(tn, ctxs, idx + 1, tl))
+                for fn_, fl in f:
+                    ictx.f_rets.extend(self._unwind(fn_, ctxs, idx + 1, fl))
+                return Frag(en, [])
+            if idx is not None:
+                ictx = ctxs[idx]
+                if ictx.ret is not None:
+                    a = ast.Assign(targets=[ast.Name(id=ictx.ret, ctx=ast.Store())],
+                                   value=s.value if s.value is not None else ast.Constant(value=None),
+                                   lineno=s.lineno, col_offset=0)
+                elif s.value is not None and not isinstance(s.value, (ast.Constant, ast.Name)):
+                    a = ast.Expr(value=s.value, lineno=s.lineno, col_offset=0)
+                else:
+                    a = ast.Pass(lineno=s.lineno, col_offset=0)
+                n = self._new("stmt", a, ctxs)
+                n.extra["inline_return"] = ictx.callee
+                if s.value is not None and may_raise_expr(s.value):
+                    self._route(n, None, ctxs)
+                ictx.rets.extend(self._unwind(n, ctxs, idx + 1))
+                return Frag(n, [])
             n = self._new("return", s, ctxs)
             if s.value is not None and may_raise_expr(s.value):
                 self._route(n, None, ctxs)
@@ -540,6 +638,238 @@ class CFG:
             return Frag(entry, outs)
         raise AnalysisError("unmodelled statement %s in %s" % (type(s).__name__, self.fi.qualname))
 
+    # -- inlining of helpers unknown to the rules (see inline.py)
+    @staticmethod
+    def _inline_index(ctxs) -> Optional[int]:
+        skip = 0
+        for i in range(len(ctxs) - 1, -1, -1):
+            c = ctxs[i]
+            if isinstance(c, SpliceCtx):
+                skip += 1
+            elif isinstance(c, InlineCtx):
+                if skip:
+                    skip -= 1
+                else:
+                    return i
+        return None
+
+    def _names_used(self) -> Set[str]:
+        if self._used is None:
+            from .inline import _all_names
+            self._used = _all_names(self.fi.node)
+            f = self.fi.parent
+            while f is not None:
+                self._used |= _all_names(f.node)
+                f = f.parent
+        return self._used
+
+    def _hoist(self, e: ast.AST, ctxs):
+        """Inline the helpers called unconditionally inside statement/expression *e*.
+
+        Returns (Frag of the inlined blocks or None, rewritten e)."""
+        if self.inliner is None:
+            return None, e
+        from .inline import unconditional_calls, replace_node, InlineBlock
+        frags: List[Frag] = []
+        done: Set[int] = set()
+        while True:
+            sites = [c for c in unconditional_calls(e) if id(c) not in done]
+            chosen = None
+            for site in sites:
+                usage = "yieldfrom" if isinstance(site, ast.YieldFrom) else "value"
+                t = self.inliner.target(self.fi, site, self._inline_stack, usage)
+                if t is not None:
+                    chosen = (site, t)
+                    break
+                done.add(id(site))
+            if chosen is None:
+                break
+            site, t = chosen
+            pre, body, ret = self.inliner.instantiate(self.fi, t, site, self._names_used(), want_ret=True)
+            self.inlined_bodies.append(list(pre) + list(body))
+            blk = InlineBlock(body, ret, t.qualname, "call", getattr(site, "lineno", 0))
+            frags.append(self._seq([self._stmt_plain(p_, ctxs) for p_ in pre] + [self._inline_block(blk, ctxs)]))
+            new = ast.copy_location(ast.Name(id=ret, ctx=ast.Load()), site)
+            e = replace_node(e, site, new)
+        if not frags:
+            return None, e
+        return self._seq(frags), e
+
+    def _cond_inline(self, e: ast.AST, ctxs):
+        """A test that is exactly a call of an inlinable helper: branch inside the helper's body."""
+        if self.inliner is None:
+            return None
+        site = e
+        call = e.value if isinstance(e, ast.Await) else e
+        if not isinstance(call, ast.Call):
+            return None
+        t = self.inliner.target(self.fi, site, self._inline_stack, "value")
+        if t is None:
+            return None
+        pre_frag, site2 = self._hoist_args(site, ctxs)
+        pre, body, _ret = self.inliner.instantiate(self.fi, t, site2, self._names_used(), want_ret=False)
+        self.inlined_bodies.append(list(pre) + list(body))
+        ictx = InlineCtx(None, t.qualname, cond=True)
+        inner = tuple(ctxs) + (ictx,)
+        frs = ([pre_frag] if pre_frag is not None else []) + [self._stmt_plain(p_, ctxs) for p_ in pre]
+        start = self._new("stmt", None, ctxs, label="inline-begin")
+        start.extra["inline_begin"] = t.qualname
+        start.lineno = getattr(e, "lineno", 0)
+        self._inline_stack.append(t.qualname)
+        if t.qualname not in self.inlined:
+            self.inlined.append(t.qualname)
+        saved_loops, self._loops = self._loops, []
+        try:
+            b = self._block(body, inner)
+        finally:
+            self._loops = saved_loops
+            self._inline_stack.pop()
+        t_end = self._new("stmt", None, ctxs, label="inline-end")
+        f_end = self._new("stmt", None, ctxs, label="inline-end")
+        for x in (t_end, f_end):
+            x.extra["inline_end"] = t.qualname
+            x.lineno = start.lineno
+        if b.entry is None:
+            self._edge(start, f_end, "n")
+        else:
+            self._edge(start, b.entry, "n")
+            self._connect(b.outs, f_end)        # falling off the end returns None
+        self._connect(ictx.t_rets, t_end)
+        self._connect(ictx.f_rets, f_end)
+        head = self._seq(frs + [Frag(start, [])])
+        return head.entry, [(t_end, "n")], [(f_end, "n")]
+
+    def _tail_inline(self, s: ast.Return, ctxs) -> Optional[Frag]:
+        """``return helper(...)``: the helper's own returns become returns of the caller."""
+        site = s.value
+        call = site.value if isinstance(site, ast.Await) else site
+        if not isinstance(call, ast.Call):
+            return None
+        t = self.inliner.target(self.fi, site, self._inline_stack, "value")
+        if t is None:
+            return None
+        pre_frag, site2 = self._hoist_args(site, ctxs)
+        pre, body, _ret = self.inliner.instantiate(self.fi, t, site2, self._names_used(), want_ret=False)
+        self.inlined_bodies.append(list(pre) + list(body))
+        frs = ([pre_frag] if pre_frag is not None else []) + [self._stmt_plain(p_, ctxs) for p_ in pre]
+        start = self._new("stmt", None, ctxs, label="inline-begin")
+        start.extra["inline_begin"] = t.qualname
+        start.lineno = s.lineno
+        self._inline_stack.append(t.qualname)
+        if t.qualname not in self.inlined:
+            self.inlined.append(t.qualname)
+        saved_loops, self._loops = self._loops, []
+        try:
+            b = self._block(body + [ast.Return(value=None, lineno=s.lineno, col_offset=0)], ctxs)
+        finally:
+            self._loops = saved_loops
+            self._inline_stack.pop()
+        return self._seq(frs + [Frag(start, [(start, "n")]), b])
+
+    def _hoist_args(self, site, ctxs):
+        """Inline helpers called in the arguments of *site* (itself left alone)."""
+        call = site.value if isinstance(site, (ast.Await, ast.YieldFrom)) else site
+        frags = []
+        new_call = call
+        for a in list(call.args) + [k.value for k in call.keywords]:
+            fr, a2 = self._hoist(a, ctxs)
+            if fr is not None:
+                frags.append(fr)
+                from .inline import replace_node
+                new_call = replace_node(new_call, a, a2)
+        if not frags:
+            return None, site
+        if new_call is not call and site is not call:
+            s2 = copy.copy(site)
+            s2.value = new_call
+            return self._seq(frags), s2
+        return self._seq(frags), new_call
+
+    def _inline_block(self, blk, ctxs) -> Frag:
+        ictx = InlineCtx(blk.ret, blk.callee)
+        inner = tuple(ctxs) + (ictx,)
+        self._inline_stack.append(blk.callee)
+        if blk.callee not in self.inlined:
+            self.inlined.append(blk.callee)
+        saved_loops, self._loops = self._loops, []
+        start = self._new("stmt", None, ctxs, label="inline-begin")
+        start.extra["inline_begin"] = blk.callee
+        start.lineno = blk.lineno
+        try:
+            body = self._block(blk.body, inner)
+        finally:
+            self._loops = saved_loops
+            self._inline_stack.pop()
+        end = self._new("stmt", None, ctxs, label="inline-end")
+        end.extra["inline_end"] = blk.callee
+        end.lineno = blk.lineno
+        if body.entry is None:
+            self._edge(start, end, "n")
+        else:
+            self._edge(start, body.entry, "n")
+            self._connect(body.outs, end)
+        self._connect(ictx.rets, end)
+        self._connect(ictx.breaks, end)
+        return Frag(start, [(end, "n")])
+
+    def _spliced_body(self, sb, ctxs) -> Frag:
+        idx = self._inline_index(ctxs)
+        if idx is None:
+            raise AnalysisError("spliced body outside an inlined block in %s" % self.fi.qualname)
+        ictx = ctxs[idx]
+        inner = tuple(ctxs) + (SpliceCtx(ictx),)
+        stack, self._inline_stack = self._inline_stack, self._inline_stack[:-1]
+        join = self._new("stmt", None, ctxs, label="splice-end")
+        try:
+            if sb.kind == "for":
+                loop = LoopCtx(join, len(ctxs))
+                self._loops.append(loop)
+                body = self._block(sb.body, inner)
+                self._loops.pop()
+                # break leaves the whole inlined generator
+                for (bn, bl) in loop.breaks:
+                    ictx.breaks.extend(self._unwind_from(bn, bl, ctxs, idx + 1))
+            else:
+                body = self._block(sb.body, inner)
+        finally:
+            self._inline_stack = stack
+        if body.entry is None:
+            return Frag(join, [(join, "n")])
+        self._connect(body.outs, join)
+        return Frag(body.entry, [(join, "n")])
+
+    def _unwind_from(self, n: Node, label: str, ctxs, down_to: int):
+        return self._unwind(n, ctxs, down_to, label)
+
+    def _try_splice(self, s, ctxs) -> Optional[Frag]:
+        from .inline import InlineBlock, has_jump
+        if isinstance(s, (ast.With, ast.AsyncWith)):
+            if len(s.items) != 1 or has_jump(s.body):
+                return None
+            item = s.items[0]
+            site = item.context_expr
+            t = self.inliner.target(self.fi, site, self._inline_stack, "with")
+            if t is None:
+                return None
+            pre, body, _ret = self.inliner.instantiate(self.fi, t, site, self._names_used(), want_ret=False)
+            body = self.inliner.splice_yields(body, item.optional_vars, list(s.body), "with")
+            self.inlined_bodies.append(list(pre) + list(body))
+            blk = InlineBlock(body, None, t.qualname, "with", s.lineno)
+            return self._seq([self._stmt_plain(p_, ctxs) for p_ in pre] + [self._inline_block(blk, ctxs)])
+        if isinstance(s, (ast.For, ast.AsyncFor)):
+            if s.orelse:
+                return None
+            site = s.iter
+            t = self.inliner.target(self.fi, site, self._inline_stack, "for")
+            if t is None:
+                return None
+            pre, body, _ret = self.inliner.instantiate(self.fi, t, site, self._names_used(), want_ret=False)
+            body = self.inliner.splice_yields(body, s.target, list(s.body), "for")
+            self.inlined_bodies.append(list(pre) + list(body))
+            blk = InlineBlock(body, None, t.qualname, "for", s.lineno)
+            return self._seq([self._stmt_plain(p_, ctxs) for p_ in pre] + [self._inline_block(blk, ctxs)])
+        return None
+
     # -- queries
     def reachable(self, starts: Iterable[Node], *, block_nodes: Iterable[Node] = (),
                   block_edges: Iterable[Tuple[Node, Node, str]] = (), follow_exc: bool = True) -> Set[int]:
@@ -616,10 +946,12 @@ class CFGCache:
         self.program = program
         self.hier = ExcHierarchy(program)
         self._cache: Dict[str, CFG] = {}
+        from .inline import Inliner, load_reference
+        self.inliner = Inliner(program, load_reference())
 
     def get(self, fi: FuncInfo) -> CFG:
         c = self._cache.get(fi.qualname)
         if c is None:
-            c = CFG(fi, self.hier)
+            c = CFG(fi, self.hier, self.inliner)
             self._cache[fi.qualname] = c
         return c
